@@ -116,7 +116,7 @@ NP_BIN = {'multiply': ast.Mult, 'divide': ast.Div, 'add': ast.Add, 'subtract': a
 
 
 class Evaluator:
-    def __init__(self, repo, func, types=None, inline=None, max_depth=4, no_inline=()):
+    def __init__(self, repo, func, types=None, inline=None, max_depth=4, no_inline=(), watch=()):
         self.repo, self.func = repo, func
         self.types = dict(types or {})     # path -> Cls
         self.inline = inline               # None = default policy; else predicate(Func)->bool
@@ -128,6 +128,8 @@ class Evaluator:
         self.depth = 0
         self.cur = None
         self.frames = [func]
+        self.watch = {id(x) for x in watch}  # statements before which the state is snapshotted (top frame)
+        self.snap = {}                      # id(stmt) -> State before the statement
         self.substores = []                # (path, keytext, value, pc)
         self.raises = []                   # (pc, node)
         self.unknown = []                  # constructs evaluated as opaque (for diagnostics)
@@ -198,6 +200,8 @@ class Evaluator:
 
     def stmt(self, s, st):
         self.cur = st
+        if id(s) in self.watch and self.depth == 0:
+            self.snap[id(s)] = st.copy()
         if isinstance(s, ast.Expr):
             if not isinstance(s.value, ast.Constant):
                 self.ev(s.value, st)
